@@ -31,7 +31,8 @@ PROPERTY = "C08"
 LEVEL = "model_checking"
 FUNCTIONS = ["aldy.gene.Gene._init_basic", "aldy.gene.Gene._init_regions",
              "aldy.gene.Gene._init_alleles (process_mutation)", "aldy.gene.Gene.get_refseq",
-             "aldy.gene.Gene._reverse_op", "aldy.sam.Sample._realign_indels (anchoring)"]
+             "aldy.gene.Gene._reverse_op", "aldy.sam.Sample._realign_indels (anchoring; "
+             "equivalent-indel table with the real indelpost equivalents)"]
 STUBS = ["chr_to_ref / ref_to_chr / region_at replaced, after the real code built them, by "
          "piecewise-linear z3 maps with identical content", "yaml -> dict passed directly",
          "indelpost Variant/VariantAlignment, pysam.FastaFile -> recorders (anchor part)"]
@@ -68,6 +69,11 @@ def configs(tier):
     for i in range(n):
         c.append({"kind": "refs", "genes": ship[i::n]})
     c.append({"kind": "anchor"})
+    # equivalent-indel table of the long-read / no-realignment path (real indelpost
+    # equivalents): every entry must denote the haplotype of the catalogued indel
+    c.append({"kind": "eqs", "genes": ["GE", "GA", "GB"] + (
+        [g for g in ship if g not in ("cyp2d6",)][:12] + ["cyp2d6"]
+        if tier == "thorough" else ["cyp2d6", "nudt15"])})
     return c
 
 
@@ -440,6 +446,83 @@ def replay_inverse(o):
 
 
 # ------------------------------------------------------------------ corpus parts
+
+
+def _apply_indel(ref, lo, pos, op, read_level):
+    """haplotype of ref (genome window starting at lo) with one indel applied. A key as
+    the read parser produces it places an insertion BEFORE pos; a catalogue key AFTER the
+    base at pos (C08: the same two reference bases)."""
+    i = pos - lo
+    if op.startswith("ins"):
+        i = i if read_level else i + 1
+        return ref[:i] + op[3:] + ref[i:]
+    d = op[3:]
+    if ref[i:i + len(d)] != d:
+        return None
+    return ref[:i] + ref[i + len(d):]
+
+
+def eqs_problems(gname, genome):
+    import tempfile
+    import c06
+
+    g = gengene.load(gname, genome)
+    s = c06.new_sample(g)
+    s._prefix = ""
+    if not s._indel_sites:
+        return [], 0
+
+    class Sam:
+        def get_reference_length(self, r):
+            return g._lookup_range[1] + 50
+
+    with tempfile.TemporaryDirectory() as tmp:
+        s._realign_indels(tmp, Sam(), None, long_reads=True)
+    probs = []
+    for (np_, no), (pos, op) in sorted(s._indel_sites_eqs.items()):
+        if "ins" in op and op.startswith("del"):
+            continue
+        lo = min(np_, pos) - 5
+        hi = max(np_, pos) + max(len(no), len(op)) + 5
+        ref = g[lo:hi]
+        a = _apply_indel(ref, lo, np_, no, True)
+        b = _apply_indel(ref, lo, pos, op, False)
+        if a is None or b is None or a != b:
+            probs.append(f"{gname}/{genome}: reads showing {np_}:{no} are counted as the "
+                         f"catalogued {pos}:{op}, but the haplotypes differ ({a} vs {b} "
+                         f"over {ref})")
+    return probs, len(s._indel_sites_eqs)
+
+
+def run_eqs(cfg):
+    res = new_result(cfg)
+    n = 0
+    for gname in cfg["genes"]:
+        for b in ("hg19", "hg38"):
+            try:
+                probs, k = eqs_problems(gname, b)
+            except Exception as e:  # noqa
+                probs, k = [f"{gname}/{b}: building the table raised "
+                            f"{type(e).__name__}: {e}"], 0
+            n += k
+            ob(res, f"eqs {gname}/{b}: every equivalent indel of the long-read table "
+                    "spells the catalogued indel's haplotype", "holds" if not probs
+               else "sat", entries=k)
+            for pr in probs[:2]:
+                res["violations"].append({"what": pr, "key": f"eqs:{gname}",
+                                          "replay": {"kind": "eqs", "gene": gname,
+                                                     "genome": b}})
+    seen = {}
+    for v in res["violations"]:
+        seen.setdefault(v["key"], v)
+    res["violations"] = list(seen.values())
+    res["stats"] = {"paths": n}
+    return res
+
+
+def replay_eqs(o):
+    probs, _ = eqs_problems(o["gene"], o["genome"])
+    return bool(probs), "; ".join(probs[:2])
 
 
 def run_refs(cfg):
